@@ -52,7 +52,7 @@ fn generic_args(rng: &mut Rng, depth: usize, p: &mut Planted) -> String {
     let mut parts = vec![];
     // lifetimes must come first to be valid Rust; syn does not care, rustc is not involved
     for _ in 0..n {
-        match rng.below(9) {
+        match rng.below(10) {
             0 | 1 => {
                 let l = lifetime(rng);
                 p.lt.insert(l.to_string());
@@ -77,6 +77,18 @@ fn generic_args(rng: &mut Rng, depth: usize, p: &mut Planted) -> String {
             5 => {
                 p.forms.insert("arg-const-lit");
                 parts.push("4".to_string());
+            }
+            6 => {
+                // generic arguments on the name of an associated-type binding / constraint are uses too
+                p.forms.insert("arg-assoc-type-generic");
+                let g = ty(rng, depth, p);
+                if rng.coin() {
+                    parts.push(format!("Item<{g}> = {}", ty(rng, depth, p)));
+                } else {
+                    let b = name(rng);
+                    p.ty.insert(b.to_string());
+                    parts.push(format!("Item<{g}>: {b}"));
+                }
             }
             _ => {
                 p.forms.insert("arg-type");
@@ -105,6 +117,11 @@ fn path(rng: &mut Rng, depth: usize, p: &mut Planted) -> String {
             p.forms.insert(if n == 1 { "bare-ident" } else { "leading-segment" });
         } else {
             p.forms.insert(if i == 0 { "after-global-colon" } else { "path-tail" });
+        }
+        if i == 0 && !global && rng.chance(1, 10) && !["Self", "self", "crate", "super"].contains(&id) {
+            // the raw spelling denotes the same parameter
+            p.forms.insert("raw-ident");
+            s.push_str("r#");
         }
         s.push_str(id);
         if depth > 0 && rng.chance(1, 3) {
@@ -547,7 +564,12 @@ fn bounds_case(case_seed: u64, c: &mut Collector) {
             3 => Some("map = f"),
             _ => None,
         };
-        let skipped = matches!(skip, Some("skip") | Some("skip = true"));
+        // a newtype hands its input to its only field whatever that field says, so `skip` there does
+        // not make the field unparsed
+        let skipped = matches!(skip, Some("skip") | Some("skip = true")) && name.is_some();
+        if name.is_none() && skip.is_some() {
+            forms.insert("newtype-field-says-skip");
+        }
         if !skipped && !variant_skipped {
             expected.extend(p.ty.iter().filter(|n| declared.contains(*n)).cloned());
         }
@@ -563,6 +585,9 @@ fn bounds_case(case_seed: u64, c: &mut Collector) {
     let names = ["fa", "fb", "fc", "fd"];
     let cattr = if tr != Tr::Meta { "#[darling(attributes(x))] " } else { "" };
     let is_enum = tr == Tr::Meta && rng.chance(1, 3);
+    // the trait the parsed fields are converted by: a newtype receiver hands the whole element to
+    // its only field, so that field is converted by the derived trait itself
+    let mut conv_trait = "FromMeta";
     let src = if is_enum {
         let nv = rng.range(1, 4);
         let mut vs = vec![];
@@ -581,6 +606,10 @@ fn bounds_case(case_seed: u64, c: &mut Collector) {
             vs.push(format!("{vattr}V{i}{body}"));
         }
         format!("enum Recv{gtext}{where_clause} {{ {} }}", vs.join(", "))
+    } else if matches!(tr, Tr::Meta | Tr::DeriveInput | Tr::Attributes) && rng.chance(1, 6) {
+        forms.insert("newtype-struct");
+        conv_trait = tr.name();
+        format!("{cattr}struct Recv{gtext}({}){where_clause};", field(&mut rng, None, false, &mut expected, &mut forms))
     } else {
         let k = rng.range(0, 4);
         let mut fs: Vec<String> = (0..k).map(|j| field(&mut rng, Some(names[j]), false, &mut expected, &mut forms)).collect();
@@ -659,7 +688,7 @@ fn bounds_case(case_seed: u64, c: &mut Collector) {
                         let extra = &gb[own.len()..];
                         match extra.len() {
                             0 => {}
-                            1 if extra[0].replace(' ', "").ends_with("::darling::FromMeta") || extra[0].replace(' ', "") == "::darling::FromMeta" => {
+                            1 if extra[0].replace(' ', "") == format!("::darling::{conv_trait}") => {
                                 bounded.insert(p.name.clone());
                             }
                             _ => fail(c, "unexpected-extra-bound", format!("`{src}`: `{}` got extra bounds {:?}", p.name, extra)),
@@ -671,7 +700,7 @@ fn bounds_case(case_seed: u64, c: &mut Collector) {
         }
         if bounded != expected {
             let class = if bounded.difference(&expected).next().is_some() { "bound-on-unused-or-skipped-param" } else { "bound-missing" };
-            fail(c, class, format!("derive({name}) on `{src}`: FromMeta bound added to {bounded:?}, the parsed fields use {expected:?}"));
+            fail(c, class, format!("derive({name}) on `{src}`: {conv_trait} bound added to {bounded:?}, the parsed fields use {expected:?}"));
         }
     }
     // where-clause unchanged
